@@ -17,7 +17,7 @@ RULE = (
     "build took none."
 )
 ASSUMPTIONS = ["the COLR / SVG-document evaluators of C01/C02 interpret both fonts", "allowance per DESIGN 2.4 with tau = 1.5 * t * nseg"]
-N = {"quick": 160, "thorough": 3200}
+N = {"quick": 200, "thorough": 4000}
 FORMATS = ("glyf_colr_1", "glyf_colr_1", "glyf_colr_0", "picosvg")
 
 
@@ -91,6 +91,46 @@ def tiny_donor_set(r, tol_vb, vb):
     return out, {"scale_and_noise_over_tolerance_x_scale": metas}
 
 
+def tiny_copy_big_gradient_set(r, vb=1000):
+    """A large outline first, then a copy 32-80x smaller filled with a gradient that is huge relative to the copy
+    (wide linear, large circular or elliptical radial, in absolute user-space units): mapping that gradient into the
+    donor's space leaves int16 / uint16, which is what the encoder's overflow fallbacks exist for."""
+    n = r.randint(3, 6)
+    R = vb * r.uniform(0.2, 0.3)
+    cx, cy = vb * 0.5, vb * 0.45
+    a0 = r.uniform(0, 6.28)
+    base = [(cx + R * r.uniform(0.7, 1) * math.cos(a0 + 2 * math.pi * i / n), cy + R * r.uniform(0.7, 1) * math.sin(a0 + 2 * math.pi * i / n)) for i in range(n)]
+    # the inverse of the placing transform must itself stay inside Fixed 16.16 (translation = scale x position), so
+    # the copy sits near the origin corner
+    sc = r.choice([40.0, 48.0, 64.0, 80.0])
+    qx, qy = vb * r.uniform(0.08, 0.3), vb * r.uniform(0.7, 0.92)
+    small = [(qx + (x - cx) / sc, qy + (y - cy) / sc) for x, y in base]
+    d0 = "M" + " L".join(f"{x:.3f},{y:.3f}" for x, y in base) + " Z"
+    d1 = "M" + " L".join(f"{x:.4f},{y:.4f}" for x, y in small) + " Z"
+    kind = r.choice(["linear-wide", "linear-wide", "radial-circular", "radial-elliptical", "radial-elliptical"])
+    stops = '<stop offset="0" stop-color="#ff2000"/><stop offset="1" stop-color="#0030ff"/>'
+    if kind == "linear-wide":
+        # half of them sized so that the mapped end points still fit int16 while the rotated point P2 does not
+        L_ = vb * (r.uniform(0.18, 0.45) if r.random() < 0.5 else r.uniform(0.15, 0.9))
+        ang = r.uniform(0, 3.14)
+        grad = f'<linearGradient id="tg" gradientUnits="userSpaceOnUse" x1="{qx - L_ * math.cos(ang):.3f}" y1="{qy - L_ * math.sin(ang):.3f}" x2="{qx + L_ * math.cos(ang):.3f}" y2="{qy + L_ * math.sin(ang):.3f}">{stops}</linearGradient>'
+    else:
+        rad = vb * r.uniform(0.6, 2.0)
+        gx, gy = qx + vb * r.uniform(-0.2, 0.2), qy + vb * r.uniform(-0.2, 0.2)
+        gt = ""
+        if kind == "radial-elliptical":
+            gt = f' gradientTransform="translate({gx:.3f} {gy:.3f}) scale(1 {r.uniform(0.4, 0.8):.3f}) translate({-gx:.3f} {-gy:.3f})"'
+        grad = f'<radialGradient id="tg" gradientUnits="userSpaceOnUse" cx="{gx:.3f}" cy="{gy:.3f}" r="{rad:.3f}"{gt}>{stops}</radialGradient>'
+    same_glyph = r.random() < 0.5
+    donor = f'<path d="{d0}" fill="#335577"/>'
+    copy_ = f'<path d="{d1}" fill="url(#tg)"/>'
+    if same_glyph:
+        svgs = [f'<svg xmlns="http://www.w3.org/2000/svg" viewBox="0 0 {vb} {vb}"><defs>{grad}</defs>{donor}{copy_}</svg>']
+    else:
+        svgs = [f'<svg xmlns="http://www.w3.org/2000/svg" viewBox="0 0 {vb} {vb}"><defs/>{donor}</svg>', f'<svg xmlns="http://www.w3.org/2000/svg" viewBox="0 0 {vb} {vb}"><defs>{grad}</defs>{copy_}</svg>']
+    return svgs, {"inverse_scale": sc, "gradient": kind}
+
+
 def gen_case(case):
     r = common.rng(ID, case["seed"], case["i"])
     pal = svggen.FontPalette(r)
@@ -102,12 +142,22 @@ def gen_case(case):
         cfg["clip_to_viewbox"] = False
     mode = r.random()
     meta = {"fmt": fmt}
-    if mode < 0.05:
+    if mode < 0.12:
+        svgs, m = tiny_copy_big_gradient_set(r, r.choice([1000, 1000, 128]))
+        fmt = r.choice(["glyf_colr_1", "glyf_colr_1", "cff_colr_1", "picosvg"])
+        cfg["color_format"] = fmt
+        cfg.pop("transform", None)
+        if tol in (0.0, -1, 2.0, 1.0):
+            cfg["reuse_tolerance"] = 0.1
+        if cfg["upem"] < 1000:
+            cfg["upem"], cfg["ascender"], cfg["descender"] = 1024, 950, -250
+        meta.update(mode="tiny-copy-big-gradient", fmt=fmt, **m)
+    elif mode < 0.16:
         svgs = svggen.same_body_other_viewbox_set(r, r.randint(2, 4), pal=pal)
         if tol in (0.0, -1):
             cfg["reuse_tolerance"] = 0.1
         meta.update(mode="same-body-other-viewbox")
-    elif mode < 0.1:
+    elif mode < 0.21:
         svgs = svggen.paint_varied_reuse_set(r, r.randint(1, 3), defaults=True)
         if tol in (0.0, -1):
             cfg["reuse_tolerance"] = 0.1
@@ -115,13 +165,13 @@ def gen_case(case):
             fmt = "picosvg"  # where per-use paint attributes exist
             cfg["color_format"] = fmt
         meta.update(mode="paint-varied-reuse", fmt=fmt)
-    elif mode < 0.15:
+    elif mode < 0.26:
         vb = r.choice([128, 1000])
         em = cfg["ascender"] - cfg["descender"]
         t_ = max(tol, 0.05)
         svgs, m = tiny_donor_set(r, t_ if fmt == "picosvg" else t_ / (em / vb), vb)
         meta.update(mode="tiny-donor-huge-near-miss", **m)
-    elif mode < 0.27:
+    elif mode < 0.34:
         svgs, gcfg, m = svggen.grid_recurrence_set(r, r.randint(2, 3), pal=pal)
         keep_clip = cfg["clip_to_viewbox"]
         cfg.update(gcfg)
@@ -130,15 +180,15 @@ def gen_case(case):
         if tol == 0.0:
             cfg["reuse_tolerance"] = 0.1
         meta.update(mode="grid-recurrence", transforms=m["transforms"])
-    elif mode < 0.42:
+    elif mode < 0.47:
         vb = r.choice([24, 128, 1000])
         em = cfg["ascender"] - cfg["descender"]
         svgs, m = near_miss_set(r, fmt, max(tol, 0.05), em / vb, vb)
         meta.update(mode="near-miss", **m)
-    elif mode < 0.55:
+    elif mode < 0.58:
         svgs, m = svggen.recurrence_set(r, r.randint(2, 3), pal, same_vb=True, tkinds=["bigscale", "bigscale", "uscale", "rotate"], vb_choices=(128, 1000))
         meta.update(mode="bigscale", transforms=m["transforms"])
-    elif mode < 0.63:
+    elif mode < 0.65:
         # donor first, copies at ~1/100 scale: the inverse transform for gradients leaves Fixed range
         svgs, m = svggen.recurrence_set(r, 2, pal, same_vb=True, vb_choices=(1000,))
         tiny = f"translate({r.uniform(300, 700):.1f} {r.uniform(300, 700):.1f}) scale({r.uniform(0.004, 0.02):.4f})"
